@@ -1,5 +1,5 @@
 """C18 — altimeter waveforms are non-negative, additive and sampling-consistent: correspondence harness and oracle."""
-import itertools, math
+import itertools, math, json
 import numpy as np
 import common as C
 from common import Corr, Tol, Finding, f2t, fs
@@ -378,6 +378,35 @@ def check_beer_lambert(case, os_):
     return None
 
 
+def _waveform_of(case, opts):
+    res = run_impl(case, opts)
+    return np.asarray(res.data.values, dtype=float).ravel()
+
+
+def check_sequence(seq=("envisat_ra2:Ku", "sentinel3_sral:Ku", "cryosat2_lrm")):
+    """altimeters that share band, bandwidth and gate count simulated one after the other in one process: each waveform is the one the same
+    altimeter gives when it is the first thing simulated in a fresh process (nothing of an earlier simulation survives in the solver)"""
+    import subprocess, sys, os
+    opts = dict(oversampling=4, theta_inc_sampling=1)
+    base = dict(thickness=[3.0], density=[350.0], corr_length=[2e-4], temperature=260.0, emmodel="iba", interfaces=["go:0.02"], substrate=None,
+                sub_eps=[9.0, 0.7], sigma_surface=0.1)
+    here = [(alt, _waveform_of(dict(base, alt=alt), opts)) for alt in seq]
+    code = ("import sys, json; sys.path.insert(0, %r); import common as C; C.import_smrt(); import pC18, numpy as np\n"
+            "base, opts = json.loads(sys.argv[1]), json.loads(sys.argv[2])\n"
+            "print('WF ' + json.dumps(pC18._waveform_of(base, opts).tolist()))\n") % os.path.dirname(os.path.abspath(__file__))
+    for alt, wf in here[1:]:
+        p = subprocess.run([sys.executable, "-c", code, json.dumps(dict(base, alt=alt)), json.dumps(opts)], capture_output=True, text=True, timeout=600,
+                           env=dict(os.environ))
+        line = [l for l in p.stdout.split("\n") if l.startswith("WF ")]
+        if not line:
+            continue
+        fresh = np.array(json.loads(line[0][3:]))
+        dev = float(np.abs(wf - fresh).max() / max(1e-300, np.abs(fresh).max()))
+        if not dev <= 1e-9:
+            return ("sequence:" + alt.split(":")[0], dev, f"<= 1e-9 of the peak (simulated after {seq[0]})")
+    return None
+
+
 def check_analytic_numerical(alt, sigma_surface, os_=8):
     """the analytic PFS*PTR*PDF of the waveform model against the flat-surface response of the same model convolved numerically with a
     Gaussian pulse (pulse_sigma) and a Gaussian distribution of surface heights (a height h is a two-way delay 2h/c), on the solver's
@@ -447,6 +476,14 @@ def oracle(ctx, hints, effort):
         b = check_beer_lambert(case, int(rng.choice([1, 2, 5, 10, 20])))
         if b:
             findings.append(to_finding(case, b))
+    evals += 5
+    try:
+        r = check_sequence()
+    except Exception as e:  # noqa
+        r = None
+    if r:
+        extra.append(Finding(r[0], f"simulated after another altimeter of the same band, bandwidth and gate count, the waveform differs by {r[1]:.3g} of "
+                             f"the peak from the one obtained in a fresh process", {"check": "sequence"}, r[1], r[2]))
     for alt in ALTIMETERS:
         for sig in ([0.0, 0.3, 1.0] if effort == "routine" else [0.0, 0.05, 0.15, 0.3, 0.5, 0.75, 1.0]):
             evals += 1
@@ -465,6 +502,9 @@ def oracle(ctx, hints, effort):
 
 
 def replay(inp, rp=None):
+    if inp.get("check") == "sequence":
+        r = check_sequence()
+        return Finding(r[0], "waveform depends on what was simulated before", inp, r[1], r[2]) if r else None
     if inp.get("check") == "analytic":
         r = check_analytic_numerical(inp["alt"], inp["sigma_surface"])
         return Finding(r[0], "analytic PFS*PTR*PDF differs from the numerical convolution", inp, r[1], r[2]) if r else None
